@@ -67,6 +67,19 @@ namespace
         static constexpr auto name = "hgv_plus_one";
         static void           eval(In<"x", TS<Int>> x, Out<TS<Int>> out) { out.set(x.value() + 1); }
     };
+    // kind 9: an OUTPUT-LESS static node that declares recordable state (a journal-style sink): never interned
+    std::int64_t g_rs_sink_runs = 0;
+    using RsBundle = TSB<"HgvRsBundle", Field<"total", TS<Int>>>;
+    struct RsSink
+    {
+        static constexpr auto name = "hgv_recordable_state_sink";
+        static void           eval(In<"in", TS<Int>> in, RecordableState<RsBundle> state)
+        {
+            auto total = state.field<"total">();
+            total.set(in.value());
+            ++g_rs_sink_runs;
+        }
+    };
     struct SinkG
     {
         static constexpr auto name = "hgv_sink_g";
@@ -418,6 +431,21 @@ namespace
             auto       it  = ports.find(src.ref);
             if (src.kind != 0 || it == ports.end()) { throw Inadmissible("wrapper input"); }
             Port<TS<Int>> x{w, it->second};
+            if (s.kind == 9)
+            {
+                // what wire<RsSink>(w, x) does (it returns nothing, so the instance is taken from add_node directly)
+                std::array<WiringPortRef, 1> in{it->second};
+                NodeBuilder                  builder = graph_wiring_detail::build_node_builder<RsSink>();
+                builder.input_endpoint(graph_wiring_detail::input_endpoint_for_sources(
+                    builder.type().schema()->input_schema, std::span<const WiringPortRef>{in.data(), in.size()}));
+                builder.label("L" + std::to_string(s.label));
+                WiringPortRef out = w.add_node(std::type_index(typeid(RsSink)), std::move(builder),
+                                               std::span<const WiringPortRef>{in.data(), in.size()}, Value{});
+                auto [c, fresh] = creator.try_emplace(out.peered_node(), s.label);
+                rep[s.label]     = c->second;
+                ports.emplace(s.label, std::move(out));
+                return;
+            }
             // kind 8: a STATIC node (wire<PlusOne>): all its instances share one runtime node type per configuration
             WiringPortRef out = s.kind == 6 ? nested_<SinkAndOutG>(w, x).erased()
                                 : s.kind == 7 ? try_except_<SinkG>(w, x).erased() : wire<PlusOne>(w, x).erased();
@@ -431,7 +459,7 @@ namespace
 
         void node_stmt(const Stmt &s)
         {
-            if (s.kind == 6 || s.kind == 7 || s.kind == 8) { wrapper_stmt(s); return; }
+            if (s.kind >= 6 && s.kind <= 9) { wrapper_stmt(s); return; }
             std::vector<WiringInputRef> inputs;
             std::vector<WiringPortRef>  sources;
             auto                        rt = std::make_shared<NodeRt>();
@@ -826,6 +854,7 @@ namespace
         try
         {
             g_sink_body_runs = 0;
+            g_rs_sink_runs   = 0;
             GraphExecutorBuilder eb;
             eb.graph_builder(std::move(*gb)).start_time(dt(1)).end_time(dt(prog.end_time));
             GraphExecutorValue executor = eb.make_executor();
@@ -849,7 +878,7 @@ namespace
             }
             out.line(l);
         }
-        out.line({32, k, g_sink_body_runs});   // how often the sink bodies inside nested_/try_except_ wrappers ran
+        out.line({32, k, g_sink_body_runs, g_rs_sink_runs});   // how often the sink bodies inside nested_/try_except_ wrappers ran
         Line ev{25, k};
         for (const auto &[label, n] : wr.run->evals) { ev.push_back(label); ev.push_back(n); }
         out.line(ev);
